@@ -234,8 +234,18 @@ def rule_b(ctx):
                         if not (set(it.read.pos.coef) == {'a0'} and it.read.pos.const < HEADER)
                         and it.read.kind in ('int', 'bytes')]
                 expect = Lin({'a0': 1}, HEADER)
-                for it in body:
+                for bi, it in enumerate(body):
                     n += 1
+                    note = getattr(it.read, 'exact_unpack', None)
+                    if note is not None and note[0] == 'size':
+                        bad = 'under %s: %s is unpacked with a format of %d bytes from a slice of %d bytes' % (
+                            rconds, it.field, note[1], note[2])
+                        break
+                    if note is not None and note[0] == 'open' and bi + 1 < len(body):
+                        bad = ('under %s: %s is unpacked with a fixed %d-byte format (struct.unpack raises unless it '
+                               'gets exactly that many bytes) from an open-ended slice, but %s follows it in the '
+                               'frame' % (rconds, it.field, note[1], body[bi + 1].field or 'another item'))
+                        break
                     if it.read.pos != expect:
                         bad = 'under %s: %s is read at %r, the previous item ended at %r' % (
                             rconds, it.field or ('length of %s' % it.lenof), it.read.pos, expect)
